@@ -87,6 +87,7 @@ class ScopeGen:
         self.guards = guards
         self.non_ascii = non_ascii
         self.n_modules = n_modules or rng.choice([1, 2, 2, 3])
+        self.stream_stack = []
 
     # ---------- module skeletons ----------
     def build(self):
@@ -198,6 +199,8 @@ class ScopeGen:
     # ---------- rendering ----------
     def new_occ(self, em, m, name, expect, ns, func=None, env=None, mvals=None):
         o = Occ(self.next_occ, name, m.idx, em.pos(), expect, ns, func)
+        if self.stream_stack:
+            o.stream = self.stream_stack[-1]
         self.next_occ += 1
         if env is not None:
             vis = {}
@@ -249,6 +252,7 @@ class ScopeGen:
         r.shuffle(order)          # top-level items are order-independent
         # keep variants with their types
         order = [d for d in order if d.kind != "variant"]
+        m.render_order = order
         for d in order:
             if d.kind == "const":
                 em.emit(("pub " if d.pub else "") + "const ")
@@ -346,7 +350,14 @@ class ScopeGen:
                 frame = []
                 sx_p = self.pattern(em, ctx, frame, top=True)
                 em.emit(" = ")
+                # a hole or literal pattern is also an expression node: `StmtLet::body()` then returns the
+                # pattern and the initialiser is never lowered (separate stream, known finding)
+                wild = sx_p == "(pwild)"
+                if wild:
+                    self.stream_stack.append("let-wild")
                 sx_e = self.expr(em, ctx, env, ctx["depth"] + 1)
+                if wild:
+                    self.stream_stack.pop()
                 out.append(f"(let {sx_p} {sx_e})")
                 env = [frame] + env
             elif not last and k == 3:
